@@ -269,6 +269,19 @@ def s_unsafe(F, R):
             # shared view of the completely filled buffer only (dominated by idx == buf.len(): H-exactfill)
             R.check(shared and "MaybeUninit<u8>" in src_ty and "RangeFull" in pp(src), "S-unsafe", key,
                     "transmute from %s to %s: only the shared view of the whole, completely filled buffer is audited" % (src_ty, to), where=loc(x))
+        elif f["root"].endswith("::poll") and shape and "core::slice::raw::from_raw_parts" in shape and \
+                set(c.rsplit("::", 1)[1] for c in shape) <= {"from_raw_parts", "cast", "as_ptr", "len"}:
+            # the same shared view spelled with from_raw_parts(buf.as_ptr().cast::<u8>(), buf.len()): pointer and length come
+            # from one and the same buffer, the element type is MaybeUninit<u8>, the result is a shared &[u8]
+            frp = [y for y in walk_all(x) if y.get("k") == "Call" and y["fn"].get("name") == "from_raw_parts"][0]
+            bases = set()
+            for y in walk_all(frp):
+                if y.get("k") == "Call" and y["fn"].get("name") in ("as_ptr", "len") and y["args"]:
+                    bases.add(pp(strip(y["args"][0])).lstrip("&*"))
+            src_ty = " ".join((y["args"][0].get("ty") or "") for y in walk_all(frp) if y.get("k") == "Call" and y["fn"].get("name") == "as_ptr")
+            to = frp.get("ty") or ""
+            R.check(len(bases) == 1 and "MaybeUninit<u8>" in src_ty and to.startswith("&[u8]"), "S-unsafe", key,
+                    "from_raw_parts over %s of %s to %s: only the shared view of the whole, completely filled buffer is audited" % (sorted(bases), src_ty, to), where=loc(x))
         else:
             R.fail("S-unsafe", "new/" + key, "unaudited unsafe block in %s: %s" % (f["root"], pp(x)[:120]), where=loc(x))
     R.floor("S-unsafe", "user unsafe blocks", len(blocks), 3)
